@@ -3,8 +3,10 @@ import Goyang.Model.TypesLite
 /-
 Property C18: re-processing, incremental loading and failed loads do not skew results.
 
-The machine is `Goyang.Model.Session` (one `yang.Modules` value: `load` = `Modules.Parse`,
-`process` = `Modules.Process`, `read` = `ToEntry(…).Find(…)`), the reference is
+The machine is `Goyang.Model.Session` (one `yang.Modules` value: `load` = `Modules.Parse` of a raw
+text - generic parser, AST builder and registry of the model, `loadText` - or of statement trees
+with the front end's verdict as a flag; `process` = `Modules.Process`; `read` =
+`ToEntry(…).Find(…)`), the reference is
 `Goyang.Spec.Session` (batch run of the good texts on a fresh set; indistinguishable states).
 All statements are for every history, every start state where one is mentioned, every plug-in
 of the type / identity layers and every option setting.
@@ -20,12 +22,13 @@ histories executed on ONE `Modules` value, that this extra state is transparent:
                              | by hand at the top of Process); Type.YangType /     | and `process read process`: 2nd
                              | Typedef.YangType / Type.resolveErrs memo (D30);     | dump = 1st dump = batch dump =
                              | Identity.Values (appended to, then rebuilt as a     | model dump (extended Go dump:
-                             | de-duplicated closure); identity dictionary         | resolved types, identity values)
+                             | de-duplicated closure: D55); identity dictionary    | resolved types, identity values)
   incremental_eq_batch,      | all of the above across a CHANGED registry: memoised| after every `process`: dump on
   process_outcome,           | types and errors of an earlier run (D44), Import/   | the one value = dump of a batch
   load_order_of_accepted_only| Include `.Module` links and identity dictionary     | run of the accepted texts on a
-                             | entries of an earlier run (D46), typeDict.dict,     | fresh Modules (Go vs Go, a
-                             | Modules/SubModules/unrevisioned maps                | violation by itself) = model
+                             | entries of an earlier run (D46), value lists of     | fresh Modules (Go vs Go, a
+                             | identities that lost their key (D55), typeDict.dict,| violation by itself) = model
+                             | Modules/SubModules/unrevisioned maps                |
   failed_load_no_trace       | typeDict.dict (typedefs of nested scopes register   | bad texts with ONE late fault,
                              | while the AST is built: D31), name maps after a     | exact duplicates, two-module
                              | partial add (D32), `mod.Modules` back pointer       | texts whose second module is
@@ -33,6 +36,9 @@ histories executed on ONE `Modules` value, that this extra state is transparent:
   read_no_trace              | entryCache entries and memoised types / errors made | ToEntry / Find / GetErrors walks
                              | by ToEntry before a Process (D45), rpc input/output | between operations; later dumps
                              | created lazily by Find                              | must equal batch and model
+
+(D30-D32, D44-D46, D55: the ways in which the unchanged tree was NOT transparent; all repaired in
+/repo, the witnesses are corpus/C18/*.json.  DESIGN.md section 8, known_findings.txt.)
 -/
 namespace Goyang.Props.C18
 open Goyang.Model Goyang.Model.Session Goyang.Spec.Session Goyang.Lemmas.Session
